@@ -1742,7 +1742,7 @@ namespace
 		Dwarf_Attribute at = dwpp_attr (die, atname2);
 		Dwarf_Die integrated_die = dwpp_formref_die (at);
 		auto ret = find_attribute (integrated_die, atname, d,
-					   ret_at, nullptr);
+					   ret_at, dwctx);
 
 		// If this call found anything, translate from found
 		// to found_integrated and create the accompanying
